@@ -10,16 +10,16 @@ import vlib
 # which driver aspects are the *property itself evaluated on the implementation's output*
 # (oracle) and which are *model/implementation correspondence* for each property
 ORACLE = {
-    "C01": ["rt", "trail", "reload", "counts"],
+    "C01": ["refusal", "rt", "trail", "reload", "counts", "propsback"],
     "C02": ["rt", "trail", "wf"],
-    "C04": ["status", "rt", "trail", "reload", "counts", "offsets", "offpad"],
-    "C05": ["offsets", "offpad", "pos", "trail"],
+    "C04": ["refusal", "status", "rt", "trail", "reload", "counts", "offsets", "offpad", "propsback"],
+    "C05": ["offsets", "offpad", "pos", "trail", "propsback"],
     "C06": ["depth", "chunkrefs", "wf"],
 }
 CORR = {
-    "C01": ["reenc"],
-    "C02": [],
-    "C04": ["reenc"],
+    "C01": ["reenc", "props"],
+    "C02": ["reenc"],
+    "C04": ["reenc", "props"],
     "C05": ["reenc"],
     "C06": ["selmatch"],
 }
@@ -40,13 +40,16 @@ def evaluate(cid, case, impl, res):
     status = case.get("status", "ok")
     refused = False
     if status != "ok":
-        # an error return: acceptable only as a refusal of an unrepresentable configuration,
-        # which must not leave a loadable file set behind
+        # an error return: acceptable only as a refusal of an unrepresentable configuration
+        # (the model decides which those are), which must not leave a loadable file set behind
         refused = True
-        if case.get("props", "") != "":
-            of.append("status(%s but properties written)" % status[:40])
-        if status.startswith("panic"):
-            of.append("status(%s)" % status[:80])
+        if "refusal" in ORACLE[cid] or cid in ("C01", "C04"):
+            if case.get("props", "") != "":
+                of.append("status(%s but properties written)" % status[:40])
+            if status.startswith("panic"):
+                of.append("status(%s)" % status[:80])
+            if res.get("refusal") != "ok":
+                of.append("refusal(%s on a representable configuration)" % status[:80])
         return of, cf, refused
     if "error" in res:
         cf.append("driver-error(%s)" % res["error"])
